@@ -14,9 +14,10 @@ from vlib import VERIF
 class Stage:
     def __init__(self, name, harness, variant="asan", quick=1000, thorough=20000, args=(), sources=None,
                  link_lib=True, common=True, env=None, per_worker_env=None, nworkers=None, need_snapshots=False,
-                 extra_flags=(), post=None, tools=False):
+                 extra_flags=(), post=None, tools=False, wrapper=()):
         self.name, self.harness, self.variant = name, harness, variant
         self.tools = tools
+        self.wrapper = list(wrapper)
         self.quick, self.thorough = quick, thorough
         self.args, self.sources = list(args), sources
         self.link_lib, self.common = link_lib, common
@@ -42,6 +43,36 @@ class Stage:
         return a
 
 
+VALGRIND = ["valgrind", "-q", "--error-exitcode=0", "--leak-check=no", "--track-origins=yes", "--log-file=vg.%p.log"]
+VALGRIND_ENV = {"VERIF_CPU_SCALE": "40"}
+
+
+def valgrind_post(st, res, out):
+    """memcheck writes one log per process (worker and forked batch children); every error block is classified like a crash text and
+    de-duplicated by (kind, innermost hwloc frames). The case is not identified (the stage is a sample): the key and the stack are."""
+    total, distinct = 0, {}
+    for f in sorted(glob.glob(os.path.join(out, "vg.*.log"))):
+        text = open(f, errors="replace").read()
+        if not text.strip():
+            continue
+        for blk in re.split(r"(?m)^==\d+== \n", text):
+            if not re.search(r"^==\d+== (Invalid|Conditional jump|Use of uninitialised|Mismatched|Syscall param|Source and destination|Argument)", blk, re.M):
+                continue
+            total += 1
+            key = vlib.classify_crash({"stderr": blk})
+            distinct.setdefault(key, blk.strip()[:2500])
+    for key, blk in sorted(distinct.items()):
+        res["records"].append({"t": "viol", "case": -1, "key": key, "detail": blk, "desc": "valgrind memcheck report collected from " + out})
+    res["stats"]["valgrind.error_blocks"] = total
+    res["stats"]["valgrind.distinct_reports"] = len(distinct)
+
+
+def valgrind_stage(harness, thorough, **kw):
+    """thorough-tier sample of the same cases on the uninstrumented build under valgrind memcheck (uninitialised values, accesses the red zones miss)"""
+    env = dict(VALGRIND_ENV); env.update(kw.pop("env", {}) or {})
+    return Stage("valgrind", harness, "plain", quick=0, thorough=thorough, wrapper=VALGRIND, env=env, post=valgrind_post, **kw)
+
+
 class Prop:
     def __init__(self, pid, stages, rule, nontrivial_classes, floor, assumptions, extra=None,
                  technique="", level_text="", level_note=""):
@@ -58,7 +89,8 @@ class Prop:
         # build everything first (parallel builds of different variants share nothing)
         exes = {}
         for st in self.stages:
-            exes[st.name] = st.build()
+            if (cases_override or (st.thorough if tier == "thorough" else st.quick)) > 0:
+                exes[st.name] = st.build()
         for si, st in enumerate(self.stages):
             cases = cases_override or (st.thorough if tier == "thorough" else st.quick)
             if cases <= 0:
@@ -67,7 +99,7 @@ class Prop:
             ts = time.time()
             n, failed = vlib.run_workers(exes[st.name], out, seed, cases, tier, nworkers=st.nworkers,
                                          extra_args=st.full_args(), env_extra=st.env,
-                                         per_worker_env=st.per_worker_env)
+                                         per_worker_env=st.per_worker_env, wrapper=st.wrapper)
             for k, rc, cmd in failed:
                 tail = ""
                 try:
@@ -235,7 +267,8 @@ def xml_backend_env(k):
 
 PROPS["C01"] = Prop(
     "C01",
-    [Stage("asan", "c01_load", "asan", quick=4000, thorough=80000, need_snapshots=True, per_worker_env=xml_backend_env)],
+    [Stage("asan", "c01_load", "asan", quick=4000, thorough=80000, need_snapshots=True, per_worker_env=xml_backend_env),
+     valgrind_stage("c01_load", 2400, need_snapshots=True, per_worker_env=xml_backend_env)],
     rule=("one load per case: generated synthetic descriptions (5/8), corpus XML by file or buffer (1/8), the bundled Linux/x86/x86+linux "
           "snapshots with every applicable component selection (2/8), the live machine (1/24), each with a default or random "
           "configuration (17 type filters incl. corner vectors, 10 topology flags); oracle = independent WF + built-in checker. "
@@ -255,7 +288,8 @@ PROPS["C01"] = Prop(
 
 PROPS["C07"] = Prop(
     "C07",
-    [Stage("asan", "c07_synthetic", "asan", quick=30000, thorough=900000, env={"ASAN_OPTIONS_EXTRA": "max_allocation_size_mb=256"})],
+    [Stage("asan", "c07_synthetic", "asan", quick=30000, thorough=900000, env={"ASAN_OPTIONS_EXTRA": "max_allocation_size_mb=256"}),
+     valgrind_stage("c07_synthetic", 9600)],
     rule=("index%3==0: a generator AST (typed levels, structural Group/Die/NUMA level, attached NUMA with sizes, explicit/sparse/"
           "interleaved PU indexes) rendered and loaded with every type kept; widths, level order, PU-index partitions per level, cache "
           "sizes, NUMA counts/memory/locality/attachment are compared with the AST's own expectation. index%3==1: hostile strings "
@@ -278,7 +312,8 @@ PROPS["C07"] = Prop(
 
 PROPS["C11"] = Prop(
     "C11",
-    [Stage("asan", "c11_types", "asan", quick=6000, thorough=150000, per_worker_env=xml_backend_env)],
+    [Stage("asan", "c11_types", "asan", quick=6000, thorough=150000, per_worker_env=xml_backend_env),
+     valgrind_stage("c11_types", 3200)],
     rule=("index%4 in {0,1}: every object (sampled above 60 objects; always every I/O, Group, MemCache object) of a corpus XML whose "
           "osdev_type words are rewritten (single, multiple, all 7 bits, zero, unknown bits) or of a synthetic topology with cache depths "
           "1..5 / instruction caches / several Group depths: type_snprintf under 5 flag words with the snprintf contract on exact-size "
@@ -360,7 +395,8 @@ PROPS["C08"] = Prop(
 
 PROPS["C05"] = Prop(
     "C05",
-    [Stage("asan", "c05_xmlroundtrip", "asan", quick=6000, thorough=150000, per_worker_env=xml_backend_env)],
+    [Stage("asan", "c05_xmlroundtrip", "asan", quick=6000, thorough=150000, per_worker_env=xml_backend_env),
+     valgrind_stage("c05_xmlroundtrip", 2400, per_worker_env=xml_backend_env)],
     rule=("one derived topology per case (synthetic or corpus XML under a random configuration, optional restrict, 0-13 annotating calls: "
           "Misc objects, infos/subtypes with XML-special characters, distances, memattr registrations and values, cpukinds; userdata on "
           "25% of the objects exported plain and base64 with lengths 0..50): v3 export by buffer or file -> import from an exact-size "
@@ -384,7 +420,9 @@ PROPS["C06"] = Prop(
     # allocations above 256 MiB fail (allocator_may_return_null): a document asking for a 10^5 x 10^5 matrix is refused by malloc as it
     # would be on a real machine, instead of costing seconds of shadow-memory poisoning that the CPU limit would blame on hwloc
     [Stage("asan", "c06_xmlfuzz", "asan", quick=16000, thorough=800000, per_worker_env=xml_backend_env,
-           env={"ASAN_OPTIONS_EXTRA": "max_allocation_size_mb=256"})],
+           env={"ASAN_OPTIONS_EXTRA": "max_allocation_size_mb=256"}),
+     # under memcheck a multi-GB malloc simply succeeds lazily; the uninstrumented importer then only touches what the document provides
+     valgrind_stage("c06_xmlfuzz", 9600, per_worker_env=xml_backend_env)],
     rule=("one input per case: a base document (corpus file 40%, v3 export of a small annotated topology 30%, v2-format export 20%, "
           "diff document 10%) with 0 (8%), 1 (69%) or 2-3 structure-aware mutations (attribute value replaced by boundary/garbage "
           "values incl. attribute-specific lists, tweaked, dropped, duplicated; element dropped, duplicated, moved, renamed; text "
@@ -422,7 +460,8 @@ PROPS["C12"] = Prop(
 
 PROPS["C13"] = Prop(
     "C13",
-    [Stage("asan", "c13_distances", "asan", quick=4000, thorough=80000, per_worker_env=xml_backend_env)],
+    [Stage("asan", "c13_distances", "asan", quick=4000, thorough=80000, per_worker_env=xml_backend_env),
+     valgrind_stage("c13_distances", 1600, per_worker_env=xml_backend_env)],
     rule=("reference list model {name, kind, objects by (type, gp_index), values}: histories of 4-11 calls on a topology loaded without distances "
           "(valid and invalid add_create/add_values/add_commit incl. grouping flags, remove / remove_by_depth / release_remove, restrict, dup and "
           "XML round trip as carriers, the four transforms on a private NVLinkBandwidth matrix with switch ports at random positions); after "
@@ -439,7 +478,8 @@ PROPS["C13"] = Prop(
 
 PROPS["C14"] = Prop(
     "C14",
-    [Stage("asan", "c14_memattrs", "asan", quick=4000, thorough=80000, per_worker_env=xml_backend_env)],
+    [Stage("asan", "c14_memattrs", "asan", quick=4000, thorough=80000, per_worker_env=xml_backend_env),
+     valgrind_stage("c14_memattrs", 1600, per_worker_env=xml_backend_env)],
     rule=("reference map model attribute -> target node -> {no-initiator value | initiators (cpuset or object) -> value}, seeded from what the loaded "
           "topology already holds: histories of 5-14 calls (valid and invalid register, set_value with cpuset / sub-cpuset / object / NULL / empty "
           "initiators and bad flags, restrict, dup and XML round trip as carriers, refresh); after every call, for every attribute: get_by_name / "
@@ -635,7 +675,8 @@ PROPS["C10"] = Prop(
 
 PROPS["C18"] = Prop(
     "C18",
-    [Stage("asan", "c18_snapshots", "asan", quick=1600, thorough=60000, need_snapshots=True, per_worker_env=xml_backend_env)],
+    [Stage("asan", "c18_snapshots", "asan", quick=1600, thorough=60000, need_snapshots=True, per_worker_env=xml_backend_env),
+     valgrind_stage("c18_snapshots", 800, need_snapshots=True, per_worker_env=xml_backend_env)],
     rule=("every case hard-link-clones one bundled snapshot (42 Linux fsroots, 29 x86 CPUID dumps, the x86+linux pairs; cycling), removes a set "
           "of paths from the clone (1/4 of the cases none, 1/4 one or two paths under sys/devices/system, 1/4 up to 8, 1/4 up to 40 biased to "
           "sys/devices/system, proc, sys/class, sys/bus; candidates = regular files, symlinks and directories whose name does not end in a digit; "
